@@ -331,6 +331,8 @@ def check(prop, tier, seed):
         # where the configuration states the pool mode: at pool level, or for the user (contradicting the pool level)
         sc['mode_at'] = 'user' if (i % 3 == 1 or (sc.get('mode') == 'session' and i % 2 == 0)) else 'pool'
         sc['restart_epilogue'] = prop == 'C04' and i % 4 == 0
+        # every third world names its server by host name, with the pooler's DNS cache on
+        sc['named_host'] = i % 6 in (2, 4)
         sc.pop('_f', None)
     v.extra['scenarios_generated'] = len(scenarios)
     results = core.run_parallel(poolcore.run_scenario, chosen, workers=14)
